@@ -53,7 +53,7 @@ func cmdOpaque(args []string) {
 		for rep := int64(0); rep < 3; rep++ {
 			base, o := run(nil, rep)
 			ev := map[string]interface{}{"op": "opaque", "id": i, "kind": sc.Kind, "tag": sc.Tag, "unann": o.Unannounced, "draws": len(o.Draws),
-				"probed": 0, "outcomes": 0, "rereads": 0, "baseKind": base.Kind, "cap": "", "len": 0, "coins": 0}
+				"probed": 0, "outcomes": 0, "rereads": 0, "baseKind": base.Kind, "cap": "", "len": 0, "coins": 0, "prefetch": b2i(o.Prefetch)}
 			if sc.Kind == "wl" && sc.WL != nil {
 				// what the specification needs for the information rule: the binary choices that WERE announced
 				coins := 0
@@ -81,6 +81,9 @@ func cmdOpaque(args []string) {
 					res, oo := run([]uint32{w}, rep)
 					if oo.Unannounced != o.Unannounced || len(oo.Draws) != len(o.Draws) {
 						rereads = 1
+					}
+					if oo.Prefetch {
+						ev["prefetch"] = 1
 					}
 					b, _ := json.Marshal([]interface{}{res.Kind, res.Toks})
 					outcomes[string(b)]++
